@@ -120,9 +120,11 @@ def arg_menus(model):
     etas = model.random_variables.iiv.names
     eta = etas[0] if etas else None
     thetas = [p.name for p in model.parameters if p.name not in model.random_variables.parameter_names]
-    th = thetas[0]
+    th = thetas[0] if thetas else model.parameters.names[0]
     cols = model.datainfo.names
-    ncol = cols[-1]
+    used = {str(x) for x in model.statements.free_symbols}
+    unused = [c for c in cols if c not in used and c != model.datainfo.id_column.name]
+    ncol = unused[-1] if unused else cols[-1]  # dropping a column the statements read is the caller's decision
     inits = dict(model.parameters.inits)
     m = {}
     if cov:
@@ -269,8 +271,9 @@ def wellformed(model):
         out.append(f"code cannot be produced: {type(e).__name__}: {str(e)[:100]}")
         return out
     try:
-        if model.update_source().code != code:
-            out.append("update_source() is not idempotent (code changes)")
+        u = model.update_source()
+        if u.update_source().code != u.code:
+            out.append("update_source() is not idempotent (code changes when applied twice)")
     except Exception as e:
         out.append(f"update_source() raises {type(e).__name__}: {str(e)[:100]}")
     return out[:3]
